@@ -231,7 +231,7 @@ static void apply_impl(std::vector<Slot> & P, const Op & op)
             return 0;
         });
         A.st = 1;
-        P[op.b].st = 2;
+        if (op.a != op.b) P[op.b].st = 2;  // op.a == op.b: move self-assignment, the slot stays live (C12: "including self-assignment")
         break;
     case CONVC:
     case CONVM:
@@ -287,6 +287,7 @@ static void apply_model(std::vector<MSlot> & M, const Op & op)
     }
     case MOVEC:
     case MOVEA: {
+        if (op.kind == MOVEA && op.a == op.b) break;  // self-assignment: the plain-array model is unchanged
         MSlot src = M[op.b];
         M[op.b].st = 2;
         M[op.b].vals.clear();
@@ -349,7 +350,7 @@ static std::vector<Op> enabled(const std::vector<MSlot> & M)
             for (int b = 0; b < K; ++b)
                 if (M[b].st == 1 && M[b].type == M[a].type) {
                     out.push_back({COPYA, a, b, 0, 0, 0, 0});
-                    if (a != b) out.push_back({MOVEA, a, b, 0, 0, 0, 0});
+                    if (a != b || M[a].st == 1) out.push_back({MOVEA, a, b, 0, 0, 0, 0});
                 }
         }
     }
